@@ -19,12 +19,16 @@ pub fn inputs(seed: u64, which: u64, big: bool) -> (Params, SampleSet) {
     p.capacity = 1 << 30;
     p.fallback = 0.0;
     p.single_file = which % 2 == 1;
+    if which == 0 {
+        // the smallest archive: one short sample
+        p.single_file = false;
+    }
     let shape = if big {
         p.segment_size = 60_000;
         p.k = 31;
         Shape { max_samples: 2, max_contigs: 2, max_contig_len: 10_000_000, iupac: false, allow_many_samples: false }
     } else {
-        Shape { max_samples: 6, max_contigs: 5, max_contig_len: if which % 3 == 0 { 2_000 } else { 20_000 }, iupac: true, allow_many_samples: false }
+        Shape { max_samples: if which == 0 { 2 } else { 6 }, max_contigs: if which == 0 { 2 } else { 5 }, max_contig_len: if which % 3 == 0 { 1_500 } else { 20_000 }, iupac: true, allow_many_samples: false }
     };
     let mut set = gen::sample_set(&mut rng, &p, &shape);
     if big {
@@ -87,11 +91,23 @@ pub fn run(args: &Args, rep: &mut Report) {
     let exe = std::env::current_exe().expect("current_exe");
     let dir = format!("{}/wf-{}-{}", scratch, std::process::id(), args.shard);
     std::fs::create_dir_all(&dir).unwrap();
-    let narch = args.get_u64("archives", 3);
+    let narch = args.get_u64("archives", if thorough { 3 } else { 2 });
     let mut all_exhaustive = true;
     let mut classes: std::collections::BTreeMap<String, u64> = Default::default();
-    for which in 0..narch + (thorough as u64) {
+    let ntotal = narch + (thorough as u64);
+    for which in 0..ntotal {
         let big = which == narch;
+        // each shard works on one archive only (the unlimited reference runs are expensive);
+        // the shards that share an archive split its offsets
+        let (group_size, my_index) = if args.nshards >= ntotal {
+            if args.shard % ntotal != which {
+                continue;
+            }
+            ((args.nshards - which + ntotal - 1) / ntotal, args.shard / ntotal)
+        } else {
+            (args.nshards, args.shard)
+        };
+        let first_of_group = my_index == 0;
         let (p, set) = inputs(args.seed, which, big);
         let mut rng = Rng::derive(args.seed, 0xC15A, which);
         let mut pr = Presentation::plain();
@@ -128,18 +144,28 @@ pub fn run(args: &Args, rep: &mut Report) {
         };
         // offsets
         let mut offs: BTreeSet<u64> = BTreeSet::new();
-        let exhaustive = thorough && size <= 48_000;
+        // every offset only for the smallest archive of the thorough tier: a create costs ~1.5 s
+        // of CPU (ZSTD level-19 contexts for the metadata streams), and below the 4 MiB write
+        // buffer every offset inside one write() call takes the same path through ragc
+        let exhaustive = thorough && which == 0 && size <= 6_000;
         if exhaustive {
             offs.extend(0..=size + 2);
         } else {
             all_exhaustive = false;
-            let n = if big { 70 } else if thorough { 3000 } else { 260 };
+            let n = if big { 40 } else if thorough { 400 } else { 24 };
             for i in 0..n {
                 offs.insert((i as u128 * size as u128 / n as u128) as u64);
                 offs.insert(rng.range(0, size));
             }
-            offs.extend(size.saturating_sub(if big { 24 } else { 70 })..=size + 2); // footer and its 8-byte length
-            offs.extend(0..(if big { 4 } else { 16 }));
+            offs.extend(size.saturating_sub(if big { 12 } else if thorough { 70 } else { 12 })..=size + 2); // footer and its 8-byte length
+            if let Ok(bytes) = std::fs::read(&clean) {
+                // both sides of the boundary between the data area and the footer
+                if let Ok((_, fstart)) = agcdec::part_spans(&bytes) {
+                    let f = fstart as u64;
+                    offs.extend([f.saturating_sub(1), f, f + 1]);
+                }
+            }
+            offs.extend(0..(if big || !thorough { 3 } else { 16 }));
             if big {
                 // both sides of every 4 MiB buffer boundary
                 let mut b = 4u64 << 20;
@@ -150,7 +176,7 @@ pub fn run(args: &Args, rep: &mut Report) {
             }
         }
         rep.max("largest_archive_bytes", size);
-        if args.shard == 0 {
+        if first_of_group {
             rep.count(if exhaustive { "archives_with_every_offset_tried" } else { "archives_sampled" }, 1);
             rep.sample(jobj(&[
                 ("archive_index", which.to_string()),
@@ -161,7 +187,7 @@ pub fn run(args: &Args, rep: &mut Report) {
                 ("input", set.brief()),
             ]));
         }
-        for n in offs.iter().copied().filter(|o| args.mine(*o)) {
+        for n in offs.iter().copied().enumerate().filter(|(idx, _)| *idx as u64 % group_size == my_index).map(|(_, o)| o) {
             for via_lib in [false, true] {
                 if via_lib && (big || lib_size == 0 || n % 4 != 0 && !(n + 80 > lib_size)) {
                     continue; // library path: every 4th offset plus the footer region
